@@ -1,7 +1,7 @@
 """C58 derived behaviours compose their fields faithfully — fixture expansion of #[derive(NetworkBehaviour)] (K14) analysed with path counting (K2), guards (K1), routing tables (K7) + ConnectionHandlerSelect / ToSwarm::map_* routing tables."""
 import re
 
-from .. import fixture, lib, mir
+from .. import fixture, lib, lib_misc as lm, mir
 from ..mir import render, strip_generics
 
 EXPLANATION = ("The fixture crate /verif/fixtures/derive_fixture (structs Two, Three, Generic<T>, Same, Custom: 2 and 3 named probe fields, one "
@@ -49,7 +49,11 @@ SELFTEST = [
     {"mutation": "swarm-derive poll_stmts: for `Same` the map_in nesting of fields 0 and 1 exchanged", "caught_by": "poll/Same: handler event of field a wrapped as arm Left/Left (and b)"},
     {"mutation": "swarm-derive poll_stmts: for `Same` every field's event mapped out as variant `A`", "caught_by": "poll/Same: out event of field b wrapped in its own variant (and c)"},
     {"mutation": "swarm-derive poll_stmts: `.skip(1)` (first field never polled)", "caught_by": "poll/<shape>: every field is polled at one site"},
-    {"mutation": "select.rs on_connection_event: AddressChange forwarded to proto1 only", "caught_by": "select/on_connection_event AddressChange reaches proto2 once"},
+    {"mutation": "select.rs on_connection_event: AddressChange forwarded to proto1 only", "caught_by": "select/on_connection_event AddressChange reaches the second handler once"},
+    {"mutation": "select.rs listen error: the Either::Right arm no longer forwards to proto2 (tried in both shapes: private helper, and inlined into the arm = neutral/misc/04.diff)",
+     "caught_by": "select/listen error: Right goes to the second handler once"},
+    {"mutation": "NEUTRAL: neutral/misc/01-05 (generated local renames, field_accessor helper, control-flow rewrites in the macro, helper inlined, hoisted lets)",
+     "caught_by": "(silent, by design)"},
     {"mutation": "behaviour.rs ToSwarm::map_in: CloseConnection arm rebuilt with connection: CloseConnection::All", "caught_by": "map/map_in: CloseConnection rebuilt field by field"},
     {"mutation": "mis-routing mutants of the macro on shapes whose fields have distinct types (and of ConnectionHandlerSelect, whose two handlers are distinct type "
                  "parameters) do not type-check: the fixture then fails to compile and the check fails closed with facts/extraction naming the rustc error",
@@ -116,9 +120,8 @@ TRYB = r"^discr\((<std::result::Result as std::ops::Try>::branch\()?"
 
 
 def try_edges(body, site):
-    cont = lib.switch_edges_on_site(body, site, {"Continue", "Ok"}, TRYB)
-    brk = lib.switch_edges_on_site(body, site, {"Break", "Err"}, TRYB)
-    return cont, brk
+    """success / failure edges of a fallible call: `?`, `match .. { Ok / Err }`, `if let Err(e) = ..`, `.is_err()`"""
+    return lm.result_edges(body, site)
 
 
 def calls_at(e, bb):
@@ -135,7 +138,7 @@ def check_deny(ctx, shape, fn, body, fields):
            "receivers: %s%s" % ({f: len(v) for f, v in by_field.items()}, " + %d other" % len(other) if other else ""))
     res = result_defs(body)
     oks = [(s, e) for k, s, e in res if k == "Ok"]
-    ctx.ob("deny", tag + ": results are Ok or a field's residual", all(k in ("Ok", "residual") for k, _, _ in res) and len(oks) >= 1, where, str([k for k, _, _ in res]))
+    ctx.ob("deny", tag + ": results are Ok or a field's error", all(k in ("Ok", "residual", "Err") for k, _, _ in res) and len(oks) >= 1, where, str([k for k, _, _ in res]))
     want_args = params(body)
     all_brk = set()
     sites = {}
@@ -158,9 +161,9 @@ def check_deny(ctx, shape, fn, body, fields):
                 st = [t for _, t in brk]
                 got = lib.count_range(body, st, rets, lib.bbs([o for o, _ in oks]))
                 ctx.ob("deny", "%s: a denial by %s is never turned into Ok" % (tag, f), got == (0, 0), c.loc(), "Ok results after %s's Err edge: %s" % (f, got))
-                mine = [s for k, s, e2 in res if k == "residual" and calls_at(e2, c.bb)]
+                mine = [s for k, s, e2 in res if k in ("residual", "Err") and calls_at(e2, c.bb)]
                 got = lib.count_range(body, st, rets, lib.bbs(mine)) if mine else None
-                ctx.ob("deny", "%s: a denial by %s returns %s's error" % (tag, f, f), got == (1, 1), c.loc(), "from_residual(%s's Break) on paths from its Err edge: %s" % (f, got))
+                ctx.ob("deny", "%s: a denial by %s returns %s's error" % (tag, f, f), got == (1, 1), c.loc(), "results built from %s's error on paths from its Err edge: %s" % (f, got))
     if oks and all_brk:
         got = lib.count_range(body, [0], rets, lib.bbs([o for o, _ in oks]), blocked_edges=all_brk)
         ctx.ob("deny", tag + ": admitted by all fields => Ok", got == (1, 1), where, "Ok results on the path avoiding every Err edge: %s" % (got,))
@@ -216,7 +219,7 @@ def check_shape(ctx, fx, fx_body, shape, fields, event_enum):
         ctx.ob("swarm-event", "%s: field %s receives every swarm event once" % (shape, f), got == (1, 1), where, "on_swarm_event(self.%s, ..) on all paths: %s" % (f, got))
         for c in cs:
             a = [render(x) for x in b.site_expr(c)[2][1:]]
-            ctx.ob("swarm-event", "%s: field %s receives the event itself" % (shape, f), a == ["event"], c.loc(), str(a))
+            ctx.ob("swarm-event", "%s: field %s receives the event itself" % (shape, f), a == [lm.pname(b, 2)], c.loc(), str(a))
 
     # ---------------------------------------------------------------- handle_established_{in,out}bound_connection
     # The position of field k's handler in the select(..) tree *defines* the Either arm of field k (ConnectionHandlerSelect
@@ -230,7 +233,7 @@ def check_shape(ctx, fx, fx_body, shape, fields, event_enum):
             bad = []
             for lf, pth in select_paths(e[4][0][1]):
                 hit = [f for f, c in sites.items() if calls_at(lf, c.bb)]
-                if len(hit) == 1 and render(lf).endswith("@Continue.0") and hit[0] not in got:
+                if len(hit) == 1 and re.search(r"@(Continue|Ok)\.0$", render(lf)) and hit[0] not in got:
                     got[hit[0]] = pth
                 else:
                     bad.append(render(lf)[:80])
@@ -260,6 +263,7 @@ def check_shape(ctx, fx, fx_body, shape, fields, event_enum):
     where = "%s:%d" % (b.file, b.line)
     rets = b.return_blocks()
     by_field, other = field_calls(b, "on_connection_handler_event")
+    PEER, CONN, EVP = lm.pname(b, 2), lm.pname(b, 3), lm.pname(b, 4)
     allc = [c for v in by_field.values() for c in v] + other
     ctx.ob("handler-event", shape + ": one delivery site per field", set(by_field) == set(fields) and all(len(v) == 1 for v in by_field.values()) and not other, where,
            "receivers %s, %d other" % ({f: len(v) for f, v in by_field.items()}, len(other)))
@@ -270,20 +274,20 @@ def check_shape(ctx, fx, fx_body, shape, fields, event_enum):
         for c in by_field.get(f, []):
             e = b.site_expr(c)
             payload = render(e[2][3]) if len(e[2]) > 3 else "?"
-            gs = {(t, tuple(sorted(ls))) for (t, ls, _, _) in b.guards_on_all_paths(c.bb) if t.startswith("discr(event")}
-            want = {("discr(%s)" % proj("event", path[:i]), (path[i],)) for i in range(len(path))}
+            gs = {(t, tuple(sorted(ls))) for (t, ls, _, _) in b.guards_on_all_paths(c.bb) if t.startswith("discr(" + EVP)}
+            want = {("discr(%s)" % proj(EVP, path[:i]), (path[i],)) for i in range(len(path))}
             arm = "(".join(path) + ("(ev" + ")" * len(path) if path else "ev")
             ctx.ob("handler-event", "%s: field %s is reached through arm %s" % (shape, f, arm), gs == want, c.loc(),
                    "discriminant tests on all paths to the delivery: %s; expected %s" % (sorted(gs), sorted(want)))
-            ctx.ob("handler-event", "%s: field %s receives the payload of its own arm" % (shape, f), payload == proj("event", path), c.loc(),
-                   "payload %s, expected %s" % (payload, proj("event", path)))
+            ctx.ob("handler-event", "%s: field %s receives the payload of its own arm" % (shape, f), payload == proj(EVP, path), c.loc(),
+                   "payload %s, expected %s" % (payload, proj(EVP, path)))
             ids = [render(x) for x in e[2][1:3]]
-            ctx.ob("handler-event", "%s: field %s receives the peer and connection id" % (shape, f), ids == ["peer_id", "connection_id"], c.loc(), str(ids))
+            ctx.ob("handler-event", "%s: field %s receives the peer and connection id" % (shape, f), ids == [PEER, CONN], c.loc(), str(ids))
     # arm -> field table, checked from the arm side as well (an arm routed to a foreign field)
     table = {}
     for f, cs in by_field.items():
         for c in cs:
-            gs = sorted((t, tuple(sorted(ls))) for (t, ls, _, _) in b.guards_on_all_paths(c.bb) if t.startswith("discr(event"))
+            gs = sorted((t, tuple(sorted(ls))) for (t, ls, _, _) in b.guards_on_all_paths(c.bb) if t.startswith("discr(" + EVP))
             table["/".join(l[0] for _, l in sorted(gs, key=lambda x: len(x[0])))] = f
     want = {"/".join(paths[f]): f for f in fields}
     ctx.ob("handler-event", shape + ": arm routes to its own field", table == want, where, "arm -> field: %s; expected %s" % (table, want))
@@ -301,7 +305,7 @@ def check_shape(ctx, fx, fx_body, shape, fields, event_enum):
     ctx.ob("addresses", shape + ": one accumulator", len(accs) == 1, "%s:%d" % (b.file, b.line), "extend targets: %s" % sorted(accs))
     for f in fields:
         c = sites.get(f)
-        mine = [s for s in ext if c is not None and calls_at(b.site_expr(s)[2][1], c.bb) and render(b.site_expr(s)[2][1]).endswith("@Continue.0")]
+        mine = [s for s in ext if c is not None and calls_at(b.site_expr(s)[2][1], c.bb) and re.search(r"@(Continue|Ok)\.0$", render(b.site_expr(s)[2][1]))]
         for o, _ in oks:
             got = lib.count_range(b, [0], [o.bb], lib.bbs(mine)) if mine else (0, 0)
             ctx.ob("addresses", "%s: addresses of %s are added once" % (shape, f), got == (1, 1), c.loc() if c else "", "extend(acc, %s's addresses) on paths to Ok: %s" % (f, got))
@@ -336,7 +340,7 @@ def check_shape(ctx, fx, fx_body, shape, fields, event_enum):
     for k, f in enumerate(fields):
         for c in by_field.get(f, [])[:1]:
             a = [render(x) for x in b.site_expr(c)[2][1:]]
-            ctx.ob("poll", "%s: field %s is polled with the task context" % (shape, f), a == ["cx"], c.loc(), str(a))
+            ctx.ob("poll", "%s: field %s is polled with the task context" % (shape, f), a == [lm.pname(b, 2)], c.loc(), str(a))
             rdy = lib.switch_edges_on_site(b, c, {"Ready"}, r"^discr\(")
             pnd = lib.switch_edges_on_site(b, c, {"Pending"}, r"^discr\(")
             ctx.ob("poll", "floor:%s %s Ready/Pending edges" % (shape, f), len(rdy) == 1 and len(pnd) == 1, c.loc(), "%s / %s" % (sorted(rdy), sorted(pnd)), nontrivial=False)
@@ -358,7 +362,7 @@ def check_shape(ctx, fx, fx_body, shape, fields, event_enum):
                     mappers[strip_generics(cur[1]).rsplit("::", 1)[1]] = cur[2][1]
                     cur = cur[2][0]
                 ctx.ob("poll", "%s: the Ready result of %s is that field's event, mapped out and in" % (shape, f), set(mappers) == {"map_in", "map_out"} and
-                       re.match(r"^.*::poll\(self\.%s, cx\)@Ready\.0$" % re.escape(f), render(cur)) is not None, s.loc(), render(x)[:200])
+                       re.match(r"^.*::poll\(self\.%s, %s\)@Ready\.0$" % (re.escape(f), re.escape(lm.pname(b, 2))), render(cur)) is not None, s.loc(), render(x)[:200])
                 mo = mappers.get("map_out")
                 if event_enum:
                     want = "fn:derive_fixture::%s::%s" % (event_enum, camel(f))
@@ -405,9 +409,9 @@ def check_map(ctx, name, mapped_variant, mapped_field):
         bad = []
         for fname, fe in e[4]:
             r = render(fe)
-            src = "self@%s.%s" % (v, fname)
+            src = "%s@%s.%s" % (lm.pname(b, 1), v, fname)
             if v == mapped_variant and fname == mapped_field:
-                if r != "std::ops::FnOnce::call_once(f, tuple{0: %s})" % src:
+                if r != "std::ops::FnOnce::call_once(%s, tuple{0: %s})" % (lm.pname(b, 2), src):
                     bad.append("%s: %s" % (fname, r))
             elif r != src:
                 bad.append("%s: %s" % (fname, r))
@@ -435,73 +439,105 @@ def side_of(e):
 
 
 def check_select(ctx):
+    """ConnectionHandlerSelect routing.  The two private fields are taken from the ADT facts in declaration order (first
+    handler = the TProto1-typed field); parameters are addressed by position; private helpers (constructor, transposers,
+    a listen-error helper) are found by role through the call sites, so renames and helper-vs-inline shapes are accepted."""
     prog = ctx.prog
     CH = r"<handler::select::ConnectionHandlerSelect as handler::ConnectionHandler>::"
-    PROTO = {"Left": "self.proto1", "Right": "self.proto2"}
-    # constructor / select
-    nw = ctx.body(SW, r"handler::select::ConnectionHandlerSelect::new$")
-    aggs = [render(nw.site_expr(s)) for s in nw.agg_sites(r"ConnectionHandlerSelect$")]
-    ctx.ob("select", "ConnectionHandlerSelect::new keeps the order", aggs == ["libp2p_swarm::handler::select::ConnectionHandlerSelect::ConnectionHandlerSelect{proto1: proto1, proto2: proto2}"], "%s:%d" % (nw.file, nw.line), str(aggs))
+    flds = lm.adt_fields(prog, SW, r"^libp2p_swarm::handler::select::ConnectionHandlerSelect$")
+    ctx.ob("select", "ConnectionHandlerSelect has two handler fields", len(flds) == 2 and [t for _, t in flds] == ["TProto1", "TProto2"], msg=str(flds))
+    P1, P2 = flds[0][0], flds[1][0]
+    PROTO = {"Left": "self." + P1, "Right": "self." + P2}
+    WHO = {"self." + P1: "first handler", "self." + P2: "second handler"}
+    # constructor / select: select(self, other) ends in an aggregate {first: self, second: other}, directly or through one crate-local constructor
     sl = ctx.body(SW, r"^libp2p_swarm::handler::ConnectionHandler::select$")
-    rr = [render(sl.site_expr(mir.Site(sl, d[1], d[2]))) for d in sl.defs.get(0, [])]
-    ctx.ob("select", "ConnectionHandler::select(self, other) = new(self, other)", rr == ["libp2p_swarm::handler::select::ConnectionHandlerSelect::new(self, other)"], "%s:%d" % (sl.file, sl.line), str(rr))
+    rr = [sl.site_expr(mir.Site(sl, d[1], d[2])) for d in sl.defs.get(0, [])]
+    ok, detail = False, [render(x)[:160] for x in rr]
+    if len(rr) == 1:
+        e = rr[0]
+        me, other = lm.pname(sl, 1), lm.pname(sl, 2)
+        if e[0] == "agg" and strip_generics(e[2]).endswith("ConnectionHandlerSelect"):
+            ok = {k: render(v) for k, v in e[4]} == {P1: me, P2: other}
+        elif e[0] == "call" and [render(x) for x in e[2]] == [me, other]:
+            cands = [x for x in prog.bodies(SW) if x.npath == strip_generics(e[1]) and x.argc == 2]
+            for nw in cands:
+                ctx.use(nw)
+                aggs = [{k: render(v) for k, v in nw.site_expr(s2)[4]} for s2 in nw.agg_sites(r"ConnectionHandlerSelect$")]
+                ok = aggs == [{P1: lm.pname(nw, 1), P2: lm.pname(nw, 2)}]
+                detail.append(str(aggs))
+    ctx.ob("select", "ConnectionHandler::select(self, other) = ConnectionHandlerSelect{first: self, second: other}", ok, "%s:%d" % (sl.file, sl.line), "; ".join(detail))
+    makers = [x.npath for x in prog.bodies(SW) if x.agg_sites(r"handler::select::ConnectionHandlerSelect$") and "Clone" not in x.npath]
+    ctx.ob("select", "ConnectionHandlerSelect is constructed in one place", len(makers) == 1, msg=str(makers))
     # on_behaviour_event
     b = ctx.body(SW, CH + r"on_behaviour_event$")
+    EV = lm.pname(b, 2)
     where = "%s:%d" % (b.file, b.line)
     rets = b.return_blocks()
     calls = b.call_sites(r"handler::ConnectionHandler::on_behaviour_event$")
     ctx.floor("select", "on_behaviour_event forwards", calls, 2, exact=True)
     for side, proto in PROTO.items():
-        ents = lib.arm_entry(b, r"^discr\(event\)$", side)
+        ents = lib.arm_entry(b, r"^discr\(%s\)$" % re.escape(EV), side)
         mine = [c for c in calls if render(b.site_expr(c)[2][0]) == proto]
         theirs = [c for c in calls if render(b.site_expr(c)[2][0]) != proto]
+        ctx.ob("select", "floor:on_behaviour_event %s arm" % side, len(ents) == 1, where, str(ents), nontrivial=False)
         if ents:
             st = [t for _, t in ents]
             got = lib.count_range(b, st, rets, lib.bbs(mine))
-            ctx.ob("select", "on_behaviour_event: %s goes to %s once" % (side, proto[5:]), got == (1, 1), where, "%s calls on the %s arm: %s" % (proto, side, got))
+            ctx.ob("select", "on_behaviour_event: %s goes to the %s once" % (side, WHO[proto]), got == (1, 1), where, "%s calls on the %s arm: %s" % (proto, side, got))
             got = lib.count_range(b, st, rets, lib.bbs(theirs))
             ctx.ob("select", "on_behaviour_event: %s never reaches the other handler" % side, got == (0, 0), where, "other handler's calls on the %s arm: %s" % (side, got))
         for c in mine:
             p = render(b.site_expr(c)[2][1])
-            ctx.ob("select", "on_behaviour_event: %s receives the %s payload" % (proto[5:], side), p == "event@%s.0" % side, c.loc(), p)
+            ctx.ob("select", "on_behaviour_event: the %s receives the %s payload" % (WHO[proto], side), p == "%s@%s.0" % (EV, side), c.loc(), p)
     # poll
     b = ctx.body(SW, CH + r"poll$")
+    CX = lm.pname(b, 2)
     where = "%s:%d" % (b.file, b.line)
     rets = b.return_blocks()
     polls = {render(b.site_expr(c)[2][0]): c for c in b.call_sites(r"handler::ConnectionHandler::poll$")}
-    ctx.ob("select", "poll: both handlers are polled", set(polls) == {"self.proto1", "self.proto2"}, where, str(sorted(polls)))
+    ctx.ob("select", "poll: both handlers are polled", set(polls) == set(PROTO.values()), where, str(sorted(polls)))
     res = [(mir.Site(b, d[1], d[2]), b.site_expr(mir.Site(b, d[1], d[2]))) for d in b.defs.get(0, [])]
     pend = [s for s, e in res if render(e).startswith("std::task::Poll::Pending")]
     for side, proto in PROTO.items():
         c = polls.get(proto)
         if c is None:
             continue
-        pnd = lib.switch_edges_on_site(b, c, {"Pending"}, r"^discr\(libp2p_swarm::handler::ConnectionHandler::poll\(self\.proto\d, cx\)\)$")
+        who = WHO[proto]
+        POLL = "libp2p_swarm::handler::ConnectionHandler::poll(%s, %s)" % (proto, CX)
+        pnd = lib.switch_edges_on_site(b, c, {"Pending"}, r"^discr\(libp2p_swarm::handler::ConnectionHandler::poll\(")
         for s in pend:
-            ctx.ob("select", "poll: Pending only after %s was Pending" % proto[5:], bool(pnd) and b.must_pass_edges(s.bb, pnd), s.loc(), "dominated by the Pending edge")
+            ctx.ob("select", "poll: Pending only after the %s was Pending" % who, bool(pnd) and b.must_pass_edges(s.bb, pnd), s.loc(), "dominated by the Pending edge")
         for variant in ("NotifyBehaviour", "OutboundSubstreamRequest", "ReportRemoteProtocols"):
-            ents = lib.arm_entry(b, r"^discr\(libp2p_swarm::handler::ConnectionHandler::poll\(%s, cx\)@Ready\.0\)$" % re.escape(proto), variant)
+            ents = lib.arm_entry(b, r"^discr\(%s@Ready\.0\)$" % re.escape(POLL), variant)
             mine = [(s, e) for s, e in res if calls_at(e, c.bb) and lib.agg_variants(e, r"handler::ConnectionHandlerEvent$") == [variant]]
-            ctx.ob("select", "floor:poll %s %s arm/result" % (proto[5:], variant), len(ents) == 1 and len(mine) == 1, where, "%d arm(s), %d result(s)" % (len(ents), len(mine)), nontrivial=False)
+            ctx.ob("select", "floor:poll %s %s arm/result" % (who, variant), len(ents) == 1 and len(mine) == 1, where, "%d arm(s), %d result(s)" % (len(ents), len(mine)), nontrivial=False)
             if not ents or not mine:
                 continue
             got = lib.count_range(b, [t for _, t in ents], rets, [mine[0][0].bb])
-            ctx.ob("select", "poll: %s's %s is returned" % (proto[5:], variant), got == (1, 1), mine[0][0].loc(), "on the arm: %s" % (got,))
+            ctx.ob("select", "poll: the %s's %s is returned" % (who, variant), got == (1, 1), mine[0][0].loc(), "on the arm: %s" % (got,))
             other_res = [s.bb for s, e in res if s.bb != mine[0][0].bb] + [x.bb for p2, x in polls.items() if p2 != proto]
             got = lib.count_range(b, [t for _, t in ents], rets, other_res)
-            ctx.ob("select", "poll: %s's %s is returned at once" % (proto[5:], variant), got == (0, 0), mine[0][0].loc(), "other results/polls after the arm: %s" % (got,))
+            ctx.ob("select", "poll: the %s's %s is returned at once" % (who, variant), got == (0, 0), mine[0][0].loc(), "other results/polls after the arm: %s" % (got,))
             e = mine[0][1]
             if variant == "NotifyBehaviour":
                 ev = [x for x in mir.walk(e) if x[0] == "agg" and x[3] == "NotifyBehaviour"][0][4][0][1]
                 vs, inner = either_nest(ev)
-                ctx.ob("select", "poll: %s's NotifyBehaviour wrapped in Either::%s" % (proto[5:], side), vs == [side] and render(inner) == "libp2p_swarm::handler::ConnectionHandler::poll(%s, cx)@Ready.0@NotifyBehaviour.0" % proto,
+                ctx.ob("select", "poll: the %s's NotifyBehaviour wrapped in Either::%s" % (who, side), vs == [side] and render(inner) == POLL + "@Ready.0@NotifyBehaviour.0",
                        mine[0][0].loc(), render(ev)[:200])
             elif variant == "OutboundSubstreamRequest":
                 pr = [x for x in mir.walk(e) if x[0] == "agg" and x[3] == "OutboundSubstreamRequest"][0][4][0][1]
                 r = render(pr)
                 mi = [x for x in mir.walk(pr) if x[0] == "call" and strip_generics(x[1]).endswith("SubstreamProtocol::map_info")]
                 mu = [x for x in mir.walk(pr) if x[0] == "call" and strip_generics(x[1]).endswith("SubstreamProtocol::map_upgrade")]
-                ok_info = len(mi) == 1 and re.match(r"^fn:either::(Either::)?%s$" % side, render(mi[0][2][1])) is not None
+                ok_info = False
+                if len(mi) == 1:
+                    m = mi[0][2][1]
+                    if m[0] == "fn":
+                        ok_info = re.match(r"^fn:either::(Either::)?%s$" % side, render(m)) is not None
+                    else:
+                        cl, ret = closure_ret(prog, b, m)
+                        vs, inner = either_nest(ret) if ret else (None, None)
+                        ok_info = vs == [side] and inner is not None and inner[0] == "arg"
                 ok_up = False
                 detail = ""
                 if len(mu) == 1:
@@ -509,57 +545,63 @@ def check_select(ctx):
                     vs, inner = either_nest(ret) if ret else (None, None)
                     ok_up = vs == [side] and inner is not None and inner[0] == "agg" and strip_generics(inner[2]).endswith("SendWrapper")
                     detail = render(ret) if ret else ""
-                src_ok = "poll(%s, cx)@Ready.0@OutboundSubstreamRequest.protocol" % proto in r
-                ctx.ob("select", "poll: %s's substream request tagged %s (upgrade and info)" % (proto[5:], side), ok_info and ok_up and src_ok, mine[0][0].loc(),
+                src_ok = POLL.split("ConnectionHandler::")[1] + "@Ready.0@OutboundSubstreamRequest.protocol" in r
+                ctx.ob("select", "poll: the %s's substream request tagged %s (upgrade and info)" % (who, side), ok_info and ok_up and src_ok, mine[0][0].loc(),
                        "map_info(%s), map_upgrade -> %s" % (render(mi[0][2][1]) if mi else None, detail))
             else:
-                ctx.ob("select", "poll: %s's ReportRemoteProtocols passed through" % proto[5:], "poll(%s, cx)@Ready.0@ReportRemoteProtocols.0" % proto in render(e), mine[0][0].loc(), render(e)[:200])
+                ctx.ob("select", "poll: the %s's ReportRemoteProtocols passed through" % who, POLL + "@Ready.0@ReportRemoteProtocols.0" in render(e), mine[0][0].loc(), render(e)[:200])
     # poll_close
     b = ctx.body(SW, CH + r"poll_close$")
+    CX = lm.pname(b, 2)
     res = [(mir.Site(b, d[1], d[2]), b.site_expr(mir.Site(b, d[1], d[2]))) for d in b.defs.get(0, [])]
     for side, proto in PROTO.items():
-        mine = [(s, e) for s, e in res if ("poll_close(%s, cx)@Ready.0@Some.0" % proto) in render(e)]
-        ctx.ob("select", "floor:poll_close %s result" % proto[5:], len(mine) == 1, "%s:%d" % (b.file, b.line), str(len(mine)), nontrivial=False)
+        mine = [(s, e) for s, e in res if ("poll_close(%s, %s)@Ready.0@Some.0" % (proto, CX)) in render(e)]
+        ctx.ob("select", "floor:poll_close %s result" % WHO[proto], len(mine) == 1, "%s:%d" % (b.file, b.line), str(len(mine)), nontrivial=False)
         for s, e in mine:
             some = [x for x in mir.walk(e) if x[0] == "agg" and x[3] == "Some"]
             vs, inner = either_nest(some[0][4][0][1]) if some else (None, None)
-            ctx.ob("select", "poll_close: %s's last events wrapped in Either::%s" % (proto[5:], side), vs == [side], s.loc(), render(e)[:200])
+            ctx.ob("select", "poll_close: the %s's last events wrapped in Either::%s" % (WHO[proto], side), vs == [side], s.loc(), render(e)[:200])
     # on_connection_event
     b = ctx.body(SW, CH + r"on_connection_event$")
+    EV = lm.pname(b, 2)
     where = "%s:%d" % (b.file, b.line)
     rets = b.return_blocks()
-    fwd = b.call_sites(r"handler::ConnectionHandler::on_connection_event$")
-    ctx.floor("select", "on_connection_event forwards", fwd, 12)
+    FWD = r"handler::ConnectionHandler::on_connection_event$"
+    fwd = b.call_sites(FWD)
+    ctx.floor("select", "on_connection_event forwards", fwd, 10)
 
     def arm(name):
-        ents = lib.arm_entry(b, r"^discr\(event\)$", name)
+        ents = lib.arm_entry(b, r"^discr\(%s\)$" % re.escape(EV), name)
         ctx.ob("select", "floor:on_connection_event arm " + name, len(ents) == 1, where, str(ents), nontrivial=False)
         return [t for _, t in ents]
+    transposers = []
     for name in ("FullyNegotiatedOutbound", "FullyNegotiatedInbound", "DialUpgradeError"):
         st = arm(name)
         if not st:
             continue
         reg = b.reachable(st)
-        tr = [c for c in b.call_sites(r"handler::select::transpose$") if c.bb in reg and render(b.site_expr(c)[2][0]) == "event@%s.0" % name]
-        ctx.ob("select", "on_connection_event %s: the event is transposed" % name, len(tr) == 1, where, "%d transpose(event@%s.0) call(s)" % (len(tr), name))
+        # the transposer: a call on the arm's payload whose result is matched on Left / Right
+        tr = [c for c in b.call_sites() if c.bb in reg and b.site_expr(c)[2] and render(b.site_expr(c)[2][0]) == "%s@%s.0" % (EV, name) and
+              lib.switch_edges_on_site(b, c, {"Left"}, r"^discr\(") and lib.switch_edges_on_site(b, c, {"Right"}, r"^discr\(")]
+        ctx.ob("select", "on_connection_event %s: the event is split by side" % name, len(tr) == 1, where, "%d call(s) on %s@%s.0 whose result is matched on Left/Right" % (len(tr), EV, name))
         if not tr:
             continue
+        TR = render(b.site_expr(tr[0]))
+        cands = [x for x in prog.bodies(SW) if x.npath == strip_generics(b.call_name(tr[0].term)) and x.argc == 1 and (name + "<") in str(x.locals[1])]
+        transposers.append((name, cands))
         for side, proto in PROTO.items():
-            edges = lib.switch_edges_on_site(b, tr[0], {side}, r"^discr\(libp2p_swarm::handler::select::transpose\(")
+            edges = lib.switch_edges_on_site(b, tr[0], {side}, r"^discr\(")
             mine = [c for c in fwd if c.bb in reg and render(b.site_expr(c)[2][0]) == proto]
             theirs = [c for c in fwd if c.bb in reg and render(b.site_expr(c)[2][0]) != proto]
-            if edges:
-                st2 = [t for _, t in edges]
-                got = lib.count_range(b, st2, rets, lib.bbs(mine))
-                ctx.ob("select", "on_connection_event %s: %s side goes to %s once" % (name, side, proto[5:]), got == (1, 1), where, "forwards on the %s edge: %s" % (side, got))
-                got = lib.count_range(b, st2, rets, lib.bbs(theirs))
-                ctx.ob("select", "on_connection_event %s: %s side never reaches the other handler" % (name, side), got == (0, 0), where, "other forwards on the %s edge: %s" % (side, got))
-            else:
-                ctx.ob("select", "floor:on_connection_event %s %s edge" % (name, side), False, where, "no switch on the transposed value", nontrivial=False)
+            st2 = [t for _, t in edges]
+            got = lib.count_range(b, st2, rets, lib.bbs(mine))
+            ctx.ob("select", "on_connection_event %s: %s side goes to the %s once" % (name, side, WHO[proto]), got == (1, 1), where, "forwards on the %s edge: %s" % (side, got))
+            got = lib.count_range(b, st2, rets, lib.bbs(theirs))
+            ctx.ob("select", "on_connection_event %s: %s side never reaches the other handler" % (name, side), got == (0, 0), where, "other forwards on the %s edge: %s" % (side, got))
             for c in mine:
                 e = b.site_expr(c)[2][1]
-                ok = lib.agg_variants(e, r"handler::ConnectionEvent$") == [name] and render(e[4][0][1]) == "libp2p_swarm::handler::select::transpose(event@%s.0)@%s.0" % (name, side)
-                ctx.ob("select", "on_connection_event %s: %s receives the %s half as the same event kind" % (name, proto[5:], side), ok, c.loc(), render(e)[:200])
+                ok = lib.agg_variants(e, r"handler::ConnectionEvent$") == [name] and render(e[4][0][1]) == "%s@%s.0" % (TR, side)
+                ctx.ob("select", "on_connection_event %s: the %s receives the %s half as the same event kind" % (name, WHO[proto], side), ok, c.loc(), render(e)[:200])
     for name in ("AddressChange", "LocalProtocolsChange", "RemoteProtocolsChange"):
         st = arm(name)
         if not st:
@@ -568,56 +610,68 @@ def check_select(ctx):
         for proto in PROTO.values():
             mine = [c for c in fwd if c.bb in reg and render(b.site_expr(c)[2][0]) == proto and lib.agg_variants(b.site_expr(c)[2][1], r"handler::ConnectionEvent$") == [name]]
             got = lib.count_range(b, st, rets, lib.bbs(mine)) if mine else (0, 0)
-            ctx.ob("select", "on_connection_event %s reaches %s once" % (name, proto[5:]), got == (1, 1), where, "forwards of %s to %s on the arm: %s" % (name, proto, got))
+            ctx.ob("select", "on_connection_event %s reaches the %s once" % (name, WHO[proto]), got == (1, 1), where, "forwards of %s to %s on the arm: %s" % (name, proto, got))
             for c in mine:
                 r = render(b.site_expr(c)[2][1])
-                ctx.ob("select", "on_connection_event %s: %s receives the event's own content" % (name, proto[5:]), "event@%s.0" % name in r, c.loc(), r[:200])
+                ctx.ob("select", "on_connection_event %s: the %s receives the event's own content" % (name, WHO[proto]), "%s@%s.0" % (EV, name) in r, c.loc(), r[:200])
+    # ListenUpgradeError: routed in the arm itself or in one private helper that receives the arm's payload
     st = arm("ListenUpgradeError")
     if st:
-        ls = [c for c in b.call_sites(r"ConnectionHandlerSelect::on_listen_upgrade_error$") if render(b.site_expr(c)[2][1]) == "event@ListenUpgradeError.0"]
-        got = lib.count_range(b, st, rets, lib.bbs(ls)) if ls else (0, 0)
-        ctx.ob("select", "on_connection_event ListenUpgradeError handled once", got == (1, 1), where, "on_listen_upgrade_error(self, event@ListenUpgradeError.0): %s" % (got,))
-    b = ctx.body(SW, r"handler::select::ConnectionHandlerSelect::on_listen_upgrade_error$")
-    where = "%s:%d" % (b.file, b.line)
-    rets = b.return_blocks()
-    fwd = b.call_sites(r"handler::ConnectionHandler::on_connection_event$")
-    ctx.floor("select", "on_listen_upgrade_error forwards", fwd, 2, exact=True)
-    for side, proto in PROTO.items():
-        ents = [(x, t) for x, t in lib.arm_entry(b, r"^discr\(.*\.error\)$", side)]
-        mine = [c for c in fwd if render(b.site_expr(c)[2][0]) == proto]
-        theirs = [c for c in fwd if render(b.site_expr(c)[2][0]) != proto]
-        ctx.ob("select", "floor:on_listen_upgrade_error %s arm" % side, len(ents) == 1, where, str(ents), nontrivial=False)
-        if ents:
-            st = [t for _, t in ents]
-            got = lib.count_range(b, st, rets, lib.bbs(mine))
-            ctx.ob("select", "listen error: %s goes to %s once" % (side, proto[5:]), got == (1, 1), where, "%s" % (got,))
-            got = lib.count_range(b, st, rets, lib.bbs(theirs))
-            ctx.ob("select", "listen error: %s never reaches the other handler" % side, got == (0, 0), where, "%s" % (got,))
-        for c in mine:
-            e = b.site_expr(c)[2][1]
-            ctx.ob("select", "listen error info side: %s receives its own info and error" % proto[5:], side_of(e) == {side} and lib.agg_variants(e, r"handler::ConnectionEvent$") == ["ListenUpgradeError"], c.loc(), render(e)[:220])
-    # transposes: result side = payload side
-    ts = prog.find(SW, r"^libp2p_swarm::handler::select::transpose$")
-    ctx.floor("select", "transpose bodies", ts, 3, exact=True)
-    for t in ts:
-        ty = str(t.locals[0])
-        kind = "FullyNegotiatedOutbound" if "FullyNegotiatedOutbound" in ty else "FullyNegotiatedInbound" if "FullyNegotiatedInbound" in ty else "DialUpgradeError" if "DialUpgradeError" in ty else "?"
-        ctx.use(t)
-        n_res = 0
-        for d in t.defs.get(0, []):
-            s = mir.Site(t, d[1], d[2])
-            e = t.site_expr(s)
-            vs, inner = either_nest(e)
-            if len(vs) < 1:
-                ctx.ob("select", "transpose(%s): results are Either values" % kind, False, s.loc(), render(e)[:160])
-                continue
-            n_res += 1
-            # sides used inside the payload, ignoring the Apply error's own nested Either which must agree as well
-            ctx.ob("select", "transpose(%s): Either::%s carries only %s-side parts" % (kind, vs[0], vs[0]), side_of(inner) == {vs[0]} and
-                   inner[0] == "agg" and strip_generics(inner[2]).endswith(kind), s.loc(), render(e)[:240])
-            gs = [(tx, sorted(ls)) for (tx, ls, _, _) in t.guards_on_all_paths(s.bb) if tx in ("discr(self.protocol)", "discr(self.info)")]
-            ctx.ob("select", "transpose(%s): Either::%s only for a %s input" % (kind, vs[0], vs[0]), bool(gs) and all(ls == [vs[0]] for _, ls in gs), s.loc(), str(gs))
-        ctx.ob("select", "floor:transpose(%s) results" % kind, n_res >= 2, "%s:%d" % (t.file, t.line), "%d results" % n_res, nontrivial=False)
+        reg = b.reachable(st)
+        inline = [c for c in fwd if c.bb in reg]
+        hb, hst, shape = b, st, "inline in the arm"
+        if not inline:
+            helpers = [c for c in b.call_sites() if c.bb in reg and len(b.site_expr(c)[2]) == 2 and render(b.site_expr(c)[2][0]) == "self" and
+                       render(b.site_expr(c)[2][1]) == "%s@ListenUpgradeError.0" % EV]
+            got = lib.count_range(b, st, rets, lib.bbs(helpers)) if helpers else (0, 0)
+            ctx.ob("select", "on_connection_event ListenUpgradeError handled once", got == (1, 1), where, "helper(self, %s@ListenUpgradeError.0) on the arm: %s" % (EV, got))
+            cands = [x for c in helpers for x in prog.bodies(SW) if x.npath == strip_generics(b.call_name(c.term)) and x.argc == 2]
+            if len(cands) != 1:
+                raise mir.RuleError("ListenUpgradeError arm: neither forwards in the arm nor a unique crate-local helper (%d candidates)" % len(cands))
+            hb, hst, shape = cands[0], [0], "helper " + cands[0].npath.split("::")[-1]
+            ctx.use(hb)
+        ctx.note("ListenUpgradeError routing shape: " + shape)
+        hwhere = "%s:%d" % (hb.file, hb.line)
+        hrets = hb.return_blocks()
+        hreg = hb.reachable(hst)
+        hfwd = [c for c in hb.call_sites(FWD) if c.bb in hreg]
+        ctx.floor("select", "listen error forwards", hfwd, 2, exact=True)
+        for side, proto in PROTO.items():
+            ents = [(x, t) for x, t in lib.arm_entry(hb, r"^discr\(.*\.error\)$", side) if x in hreg]
+            mine = [c for c in hfwd if render(hb.site_expr(c)[2][0]) == proto]
+            theirs = [c for c in hfwd if render(hb.site_expr(c)[2][0]) != proto]
+            ctx.ob("select", "floor:listen error %s arm" % side, len(ents) == 1, hwhere, str(ents), nontrivial=False)
+            if ents:
+                st2 = [t for _, t in ents]
+                got = lib.count_range(hb, st2, hrets, lib.bbs(mine))
+                ctx.ob("select", "listen error: %s goes to the %s once" % (side, WHO[proto]), got == (1, 1), hwhere, "%s" % (got,))
+                got = lib.count_range(hb, st2, hrets, lib.bbs(theirs))
+                ctx.ob("select", "listen error: %s never reaches the other handler" % side, got == (0, 0), hwhere, "%s" % (got,))
+            for c in mine:
+                e = hb.site_expr(c)[2][1]
+                ctx.ob("select", "listen error info side: the %s receives its own info and error" % WHO[proto], side_of(e) == {side} and lib.agg_variants(e, r"handler::ConnectionEvent$") == ["ListenUpgradeError"], c.loc(), render(e)[:220])
+        got = lib.count_range(hb, hst, hrets, lib.bbs(hfwd))
+        ctx.ob("select", "listen error is delivered to exactly one handler", got == (1, 1), hwhere, "forwards on all paths: %s" % (got,))
+    # transposers: result side = payload side
+    ctx.ob("select", "floor:transposer bodies", len(transposers) == 3 and all(len(c) == 1 for _, c in transposers), msg=str([(k, [x.npath for x in c]) for k, c in transposers]), nontrivial=False)
+    for kind, cands in transposers:
+        for t in cands:
+            ctx.use(t)
+            me = lm.pname(t, 1)
+            n_res = 0
+            for d in t.defs.get(0, []):
+                s = mir.Site(t, d[1], d[2])
+                e = t.site_expr(s)
+                vs, inner = either_nest(e)
+                if len(vs) < 1:
+                    ctx.ob("select", "transpose(%s): results are Either values" % kind, False, s.loc(), render(e)[:160])
+                    continue
+                n_res += 1
+                ctx.ob("select", "transpose(%s): Either::%s carries only %s-side parts" % (kind, vs[0], vs[0]), side_of(inner) == {vs[0]} and
+                       inner[0] == "agg" and strip_generics(inner[2]).endswith(kind), s.loc(), render(e)[:240])
+                gs = [(tx, sorted(ls)) for (tx, ls, _, _) in t.guards_on_all_paths(s.bb) if tx in ("discr(%s.protocol)" % me, "discr(%s.info)" % me)]
+                ctx.ob("select", "transpose(%s): Either::%s only for a %s input" % (kind, vs[0], vs[0]), bool(gs) and all(ls == [vs[0]] for _, ls in gs), s.loc(), str(gs))
+            ctx.ob("select", "floor:transpose(%s) results" % kind, n_res >= 2, "%s:%d" % (t.file, t.line), "%d results" % n_res, nontrivial=False)
 
 
 def check(ctx):
